@@ -261,6 +261,7 @@ def tameV (p : Bool) (x : Val) : Bool :=
   | .zstk _ => !p
   | .zcnd _ => !p
   | .anys xs => tameL p (xs.map Val.anyElem)
+  | .opv _ => true
 termination_by structural x
 def tameVL (p : Bool) (xs : List Val) : Bool :=
   match xs with
@@ -292,6 +293,7 @@ theorem tameV_toEV (p : Bool) (x : Val) (h : tameV p x = true) : tame p x.toEV =
       simp only [tameV, Bool.not_eq_true'] at h
       rw [h]; exact tame_handleStruct true f
   | anys xs => simpa [Val.toEV, tameV, tame] using h
+  | opv o => cases o <;> cases p <;> simp [Val.toEV, opEV, tame, tameL] <;> decide
 
 mutual
 theorem Val.veq_total (hook : EqHook) (p : Bool) : ∀ (x y : Val), tameV p x = true → tameV p y = true →
@@ -336,6 +338,9 @@ theorem Val.veq_total (hook : EqHook) (p : Bool) : ∀ (x y : Val), tameV p x = 
   | .anys xs, y, hx, hy => by
       simp only [Val.veq]
       exact veq_total p _ false false _ (tameV_toEV p (.anys xs) hx) (sideTame_any p _ (tameV_toEV p y hy))
+  | .opv o, y, hx, hy => by
+      simp only [Val.veq]
+      exact veq_total p _ false false _ (tameV_toEV p (.opv o) hx) (sideTame_any p _ (tameV_toEV p y hy))
 
 theorem stkLoop_total (hook : EqHook) (p : Bool) : ∀ (xs ys : List Val), xs.length = ys.length →
     tameVL p xs = true → tameVL p ys = true → ∃ r, stkLoop hook xs ys = .ok r
@@ -387,6 +392,7 @@ theorem Val.IsEqual_total (hook : EqHook) (p same : Bool) (a o : Val) (ha : a.is
   | nil => simp [Val.isHandle] at ha
   | leaf l => simp [Val.isHandle] at ha
   | anys xs => simp [Val.isHandle] at ha
+  | opv o => simp [Val.isHandle] at ha
 
 /-! ## `strip`, `sideAny`, `sideVal` on the domain -/
 
@@ -977,6 +983,7 @@ theorem Val.veq_iff (hook : EqHook) : ∀ (x y : Val), inDomain x = true → inD
       | zstk f' => simp [inDomain] at hy
       | zcnd f' => simp [inDomain] at hy
       | anys ys => simp [inDomain] at hy
+      | opv o => simp [inDomain] at hy
   | .leaf l, y, hx, hy => by
       simp only [inDomain, Bool.and_eq_true, Bool.not_eq_true'] at hx
       cases y with
@@ -997,9 +1004,11 @@ theorem Val.veq_iff (hook : EqHook) : ∀ (x y : Val), inDomain x = true → inD
       | zstk f' => simp [inDomain] at hy
       | zcnd f' => simp [inDomain] at hy
       | anys ys => simp [inDomain] at hy
+      | opv o => simp [inDomain] at hy
   | .zstk f, y, hx, hy => by simp [inDomain] at hx
   | .zcnd f, y, hx, hy => by simp [inDomain] at hx
   | .anys xs, y, hx, hy => by simp [inDomain] at hx
+  | .opv o, y, hx, hy => by simp [inDomain] at hx
 
 theorem stkLoop_iff (hook : EqHook) : ∀ (xs ys : List Val), xs.length = ys.length →
     inDomainL xs = true → inDomainL ys = true → (stkLoop hook xs ys = .ok none ↔ sameVals xs ys = true)
@@ -1042,5 +1051,6 @@ theorem Val.IsEqual_iff (hook : EqHook) (a b : Val) (ha : a.isHandle = true)
   | nil => simp [Val.isHandle] at ha
   | leaf l => simp [Val.isHandle] at ha
   | anys xs => simp [Val.isHandle] at ha
+  | opv o => simp [Val.isHandle] at ha
 
 end Stackage
